@@ -194,6 +194,7 @@ class Check:
         for f in agg["failures"]:
             groups.setdefault(signature(f), []).append(f)
         nviol = nknown = 0
+        unreproduced = []
         os.makedirs(os.path.join(OUT, "replays"), exist_ok=True)
         for gi, (sig, fs) in enumerate(sorted(groups.items())):
             if gi >= 8:
@@ -225,8 +226,10 @@ class Check:
             with open(path, "w") as fh:
                 json.dump(rec, fh, indent=1)
             if not ok:
-                self.say("HARNESS-ERROR: replay %s does not reproduce in a fresh process" % path)
-                raise common.HarnessError("non-reproducible failure %s" % sig)
+                # decided after all signatures have been looked at: next to a CONFIRMED violation this is a note (a broken
+                # tree may well fail nondeterministically as well); on its own it is a harness error, never a verdict
+                unreproduced.append((sig, path))
+                continue
             fop = failing_op_of(rec["ops"], rec["expected_violation"]["step"])
             k = match_known(self.prop, rec["expected_violation"], fop) if rec.get("kind") != "runs" else None
             if k is not None:
@@ -237,6 +240,12 @@ class Check:
                 self.say("VIOLATION property=%s replay=%s" % (self.prop, path))
                 self.say("  oracle=%s step=%s ops=%d detail=%s" % (rec["expected_violation"]["oracle"], rec["expected_violation"]["step"],
                                                                   len(rec["ops"]), rec["expected_violation"]["detail"][:300]))
+        for sig, path in unreproduced:
+            if nviol:
+                self.say("note: failure %s did not reproduce in a fresh process (%s); reported only as a note next to the confirmed violation(s) above" % (sig, path))
+            else:
+                self.say("HARNESS-ERROR: replay %s does not reproduce in a fresh process" % path)
+                raise common.HarnessError("non-reproducible failure %s" % sig)
         return nviol, nknown
 
     def runs_reproduce(self, build, tmpdir, runs, hashseed, oracle, tag):
